@@ -47,6 +47,7 @@ func init() {
 			{Name: "order", Run: runOrder},
 			{Name: "wrappers", Run: runWrappers},
 			{Name: "history", Run: runHistory},
+			{Name: "multi", Run: runMulti},
 			{Name: "len4", Run: runLen4, ThoroughOnly: true},
 		},
 		Assumptions: []string{
